@@ -1477,7 +1477,12 @@ class FileSet:
             # Maybe there is a file with exact this timestamp?
             path = self.get_filename(timestamp, )
             if self.file_system.isfile(path):
-                return self.get_info(path)
+                file_info = self.get_info(path)
+
+                # This short cut must not bypass the filters or the files
+                # and time periods which the user has excluded:
+                if filters is None and not self.is_excluded(file_info):
+                    return file_info
         except (UnknownPlaceholderError, UnfilledPlaceholderError):
             pass
 
